@@ -33,6 +33,19 @@ package dfa
 //@   pure
 //@   ensures  len(result) == 0
 
+// higher-order library functions: the function argument is applied with apply()
+//@ extern slices.EqualFunc(s1 []Elem, s2 []Elem, eq func(Elem, Elem) bool) bool
+//@   ensures result == (len(s1) == len(s2) && (forall i int :: {s1[i]} {s2[i]} 0 <= i && i < len(s1) ==> apply(eq, s1[i], s2[i])))
+//@ extern slices.ContainsFunc(s []Elem, f func(Elem) bool) bool
+//@   ensures result == (exists i int :: {s[i]} 0 <= i && i < len(s) && apply(f, s[i]))
+
+// Equals is equality of the denoted total maps
+//@ func (DenseMapLattice).Equals
+//@   uses     semilattice
+//@   pure
+//@   ensures  [sound]    result ==> (forall k int :: {dget(s.l, a, k)} {dget(s.l, b, k)} dget(s.l, a, k) == dget(s.l, b, k))
+//@   ensures  [complete] (forall k int :: {dget(s.l, a, k)} {dget(s.l, b, k)} {a[k]} {b[k]} dget(s.l, a, k) == dget(s.l, b, k)) ==> result
+
 // pointwise merge; the result covers the longer argument
 //@ func (DenseMapLattice).Merge
 //@   uses     semilattice
@@ -56,6 +69,32 @@ package dfa
 //@   uses     semilattice
 //@   ensures  dget(s.l, s.Merge(a, s.Ident()), k) == dget(s.l, a, k)
 
+// ... and therefore as decided by the lattice's own Equals
+//@ lemma dense_comm_eq(s DenseMapLattice, a []Elem, b []Elem)
+//@   uses     semilattice
+//@   ensures  s.Equals(s.Merge(a, b), s.Merge(b, a))
+//@ lemma dense_assoc_eq(s DenseMapLattice, a []Elem, b []Elem, c []Elem)
+//@   uses     semilattice
+//@   ensures  s.Equals(s.Merge(a, s.Merge(b, c)), s.Merge(s.Merge(a, b), c))
+//@ lemma dense_idem_eq(s DenseMapLattice, a []Elem)
+//@   uses     semilattice
+//@   ensures  s.Equals(s.Merge(a, a), a)
+//@ lemma dense_ident_eq(s DenseMapLattice, a []Elem)
+//@   uses     semilattice
+//@   ensures  s.Equals(s.Merge(a, s.Ident()), a)
+// Equals is an equivalence and Merge respects it
+//@ lemma dense_eq_sym(s DenseMapLattice, a []Elem, b []Elem)
+//@   uses     semilattice
+//@   ensures  s.Equals(a, b) == s.Equals(b, a)
+//@ lemma dense_eq_trans(s DenseMapLattice, a []Elem, b []Elem, c []Elem)
+//@   uses     semilattice
+//@   requires s.Equals(a, b) && s.Equals(b, c)
+//@   ensures  s.Equals(a, c)
+//@ lemma dense_eq_cong(s DenseMapLattice, a []Elem, b []Elem, c []Elem)
+//@   uses     semilattice
+//@   requires s.Equals(a, b)
+//@   ensures  s.Equals(s.Merge(a, c), s.Merge(b, c))
+
 // ---- MapLattice: a map read as a total map, missing keys are the identity; the identity is
 // never stored (representation invariant from the type's documentation) ----
 //@ ghost mget(l L, a map[Key]Elem, k Key) Elem = k in a ? a[k] : l.Ident()
@@ -69,6 +108,19 @@ package dfa
 //@ func (MapLattice).Ident
 //@   pure
 //@   ensures  len(result) == 0
+
+// maps.EqualFunc: same key set and eq on every pair of values (stated over key sets; the
+// implementation compares len() first and then looks every key of m1 up in m2)
+//@ extern maps.EqualFunc(m1 map[Key]Elem, m2 map[Key]Elem, eq func(Elem, Elem) bool) bool
+//@   ensures result == ((forall k Key :: {k in m1} {k in m2} (k in m1) == (k in m2)) && (forall k Key :: {m1[k]} {m2[k]} k in m1 ==> apply(eq, m1[k], m2[k])))
+
+// Equals is equality of the denoted total maps (given the representation invariant)
+//@ func (MapLattice).Equals
+//@   uses     semilattice
+//@   requires noIdent(m.l, a) && noIdent(m.l, b)
+//@   pure
+//@   ensures  [sound]    result ==> (forall k Key :: {mget(m.l, a, k)} {mget(m.l, b, k)} mget(m.l, a, k) == mget(m.l, b, k))
+//@   ensures  [complete] (forall k Key :: {mget(m.l, a, k)} {mget(m.l, b, k)} {a[k]} {b[k]} {k in a} {k in b} mget(m.l, a, k) == mget(m.l, b, k)) ==> result
 
 //@ func (MapLattice).Merge
 //@   uses     semilattice, identonly
